@@ -67,3 +67,47 @@ M("C14-env-switch-skips-repopulation", {"C14": "C14.R3"},
   ("main_loop.py", "            if current_iteration > 0:\n", "            if current_iteration > 0 and not os.environ.get('CUPCAKE_ENABLE_MULTIPROCESSING'):\n"))
 M("C14-twin-random-state-literal", {"C14": None},
   ("cluster_label_assignment.py", "covariance_type=\"full\")", "covariance_type=\"full\", random_state=None)"))
+
+# ---------------------------------------------------------------- C09
+_LOOP = "        for current_iteration in range(current_model_state.arguments.iteration_limit):"
+M("C09-limit-minus-one", {"C09": "C09.R1"}, ("main_loop.py", _LOOP, "        for current_iteration in range(current_model_state.arguments.iteration_limit - 1):"))
+M("C09-hardwired-limit", {"C09": "C09.R1"}, ("main_loop.py", _LOOP, "        for current_iteration in range(1000):"))
+M("C09-assert-dropped", {"C09": "C09.R1"}, ("main_loop.py", "    assert user_args.iteration_limit > 0  # must have at least one iteration\n", ""))
+M("C09-assert-weakened", {"C09": "C09.R1"}, ("main_loop.py", "    assert user_args.iteration_limit > 0", "    assert user_args.iteration_limit >= 0"))
+M("C09-repopulate-first-round", {"C09": "C09.R2"}, ("main_loop.py", "            if current_iteration > 0:\n", "            if current_iteration >= 0:\n"))
+M("C09-stats-after-optimise", {"C09": "C09.R2"},
+  ("main_loop.py", "            current_model_state = cluster_maintenance.update_all_cluster_statistics(\n                current_model_state, stacked_training_data\n            )\n\n            current_model_state = graphical_lasso.optimize_markov_random_fields(\n                current_model_state, stacked_training_data, task_pool\n            )\n",
+   "            current_model_state = graphical_lasso.optimize_markov_random_fields(\n                current_model_state, stacked_training_data, task_pool\n            )\n\n            current_model_state = cluster_maintenance.update_all_cluster_statistics(\n                current_model_state, stacked_training_data\n            )\n"))
+M("C09-relabel-from-stale-state", {"C09": "C09.R2"},
+  ("main_loop.py", "            current_model_state = graphical_lasso.optimize_markov_random_fields(\n                current_model_state, stacked_training_data, task_pool\n            )\n",
+   "            optimised_state = graphical_lasso.optimize_markov_random_fields(\n                current_model_state, stacked_training_data, task_pool\n            )\n"))
+M("C09-skip-optimise-on-odd-rounds", {"C09": "C09.R2"},
+  ("main_loop.py", "            current_model_state = graphical_lasso.optimize_markov_random_fields(\n                current_model_state, stacked_training_data, task_pool\n            )\n",
+   "            if current_iteration % 2 == 0:\n                current_model_state = graphical_lasso.optimize_markov_random_fields(\n                    current_model_state, stacked_training_data, task_pool\n                )\n"))
+M("C09-save-before-test", {"C09": "C09.R3"},
+  ("main_loop.py", "            if (previous_iteration_point_labels ==\n                    current_model_state.point_labels):\n                LOGGER.info((\n                    \"Cluster assignments have converged. Optimization \"\n                    \"complete.\"))\n                break\n            previous_iteration_point_labels = copy.copy(\n                current_model_state.point_labels)\n",
+   "            stop = (previous_iteration_point_labels ==\n                    current_model_state.point_labels)\n            previous_iteration_point_labels = copy.copy(\n                current_model_state.point_labels)\n            if previous_iteration_point_labels == current_model_state.point_labels:\n                break\n"))
+M("C09-break-or-budget", {"C09": "C09.R3"},
+  ("main_loop.py", "            if (previous_iteration_point_labels ==\n                    current_model_state.point_labels):", "            if (previous_iteration_point_labels ==\n                    current_model_state.point_labels) or current_iteration > 50:"))
+M("C09-prev-from-pre-relabel-state", {"C09": "C09.R3"},
+  ("main_loop.py", "            current_model_state = cluster_label_assignment.predict_cluster_labels(\n                current_model_state, stacked_training_data\n            )\n",
+   "            fitted_state = current_model_state\n            current_model_state = cluster_label_assignment.predict_cluster_labels(\n                current_model_state, stacked_training_data\n            )\n"),
+  ("main_loop.py", "            previous_iteration_point_labels = copy.copy(\n                current_model_state.point_labels)", "            previous_iteration_point_labels = copy.copy(\n                fitted_state.point_labels)"))
+M("C09-prev-init-empty-list", {"C09": "C09.R3"}, ("main_loop.py", "    previous_iteration_point_labels = None\n", "    previous_iteration_point_labels = current_model_state.point_labels\n"))
+M("C09-mrf-from-fitted-state", {"C09": "C09.R4"},
+  ("main_loop.py", "            current_model_state = cluster_label_assignment.predict_cluster_labels(\n                current_model_state, stacked_training_data\n            )\n",
+   "            fitted_state = current_model_state\n            current_model_state = cluster_label_assignment.predict_cluster_labels(\n                current_model_state, stacked_training_data\n            )\n"),
+  ("main_loop.py", "        current_model_state.clusters[cluster_id].train_inverse\n", "        fitted_state.clusters[cluster_id].train_inverse\n"))
+M("C09-bic-from-initial-state", {"C09": "C09.R4"},
+  ("main_loop.py", "    current_model_state.arguments.print()\n", "    current_model_state.arguments.print()\n    initial_state = current_model_state\n"),
+  ("main_loop.py", "cluster_metrics.bayesian_information_criterion(current_model_state)", "cluster_metrics.bayesian_information_criterion(initial_state)"))
+M("C09-early-return-in-loop", {"C09": ["C09.R3", "C09.R4"]},
+  ("main_loop.py", "                break\n", "                return None\n"))
+M("C09-twin-list-copy", {"C09": None}, ("main_loop.py", "            previous_iteration_point_labels = copy.copy(\n                current_model_state.point_labels)", "            previous_iteration_point_labels = list(current_model_state.point_labels)"))
+M("C09-twin-limit-temp", {"C09": None},
+  ("main_loop.py", _LOOP, "        max_rounds = current_model_state.arguments.iteration_limit\n        for current_iteration in range(max_rounds):"))
+M("C09-twin-neq-else-break", {"C09": None},
+  ("main_loop.py", "            if (previous_iteration_point_labels ==\n                    current_model_state.point_labels):\n                LOGGER.info((\n                    \"Cluster assignments have converged. Optimization \"\n                    \"complete.\"))\n                break\n            previous_iteration_point_labels = copy.copy(\n                current_model_state.point_labels)\n",
+   "            if previous_iteration_point_labels != current_model_state.point_labels:\n                previous_iteration_point_labels = copy.copy(\n                    current_model_state.point_labels)\n            else:\n                break\n"))
+M("C09-twin-user-args-limit", {"C09": None},
+  ("main_loop.py", _LOOP, "        for current_iteration in range(user_args.iteration_limit):"))
